@@ -67,6 +67,8 @@ fn run(case: &Case, dir: &str) -> Verdict {
     let mut ecfg = props::engine_cfg(case, &path);
     ecfg.keep_models = true;
     ecfg.verify_commit = false;
+    // other properties' oracles are not consulted: they would only end runs early
+    ecfg.fsck_commit = false;
     ecfg.oracles = vec![];
     ecfg.stop_after_commit = Some(n_commits);
     let out = if n_commits == 0 {
